@@ -15,6 +15,10 @@ Ties:
 import os
 import time
 
+# tiny data: BLAS / OpenMP thread pools only add overhead (and nondeterministic summation order)
+for _v in ("OMP_NUM_THREADS", "OPENBLAS_NUM_THREADS", "MKL_NUM_THREADS"):
+    os.environ.setdefault(_v, "1")
+
 from .. import vlib
 from ..translate import gen, oracles, zoo
 
